@@ -56,6 +56,23 @@ func AdaptType(s string) interface{} {
 	return f
 }
 
+// AdaptValue adapts the type of a value that is stored and later read back. A numeric-looking
+// string only becomes a number when that number renders back to exactly the bytes that were
+// written ("007", "1.50" or "+5" stay strings), so that readers return the value unchanged.
+func AdaptValue(s string) interface{} {
+	switch v := AdaptType(s).(type) {
+	case int:
+		if strconv.Itoa(v) == s {
+			return v
+		}
+	case float64:
+		if fmt.Sprint(v) == s && strconv.FormatFloat(v, 'f', -1, 64) == s {
+			return v
+		}
+	}
+	return s
+}
+
 func Decode(raw []byte) ([]string, error) {
 	reader := resp.NewReader(bytes.NewReader(raw))
 
